@@ -339,7 +339,7 @@ def one(ctx, rng, k):
 
 def run_shard(ctx):
     logging.disable(logging.CRITICAL)
-    for k in range(ctx.n(1000, 40000)):
+    for k in range(ctx.n(3000, 40000)):
         if ctx.out_of_time():
             break
         ctx.guarded(one, ctx, ctx.rng, k, timeout=60)
